@@ -96,6 +96,11 @@ def check (j : Json) : Except String (Option String) := do
     match beginBlock pre h now with
     | .error e => return some s!"field=panic model predicts a BeginBlock panic ({e}) impl=ok"
     | .ok s' => return diff s' post
+  if let .ok pj := opj.getObjVal? "setParams" then
+    -- a governance parameter change: only the parameters move (`Event.setParams` of C15)
+    let p : Params ← fromJson? pj
+    if !ok then return (diff pre post).map (fun d => "failed-message-changed-state " ++ d)
+    return diff { pre with params := p } post
   let op : Op ← fromJson? opj
   match step pre h now op with
   | none =>
